@@ -123,3 +123,41 @@ impl One for Sym { fn one() -> Sym { Sym(1) } }
 impl vek::ops::ColorComponent for Sym { fn full() -> Sym { Sym(0xFFFF) } }
 impl vek::num_traits::AsPrimitive<u32> for Sym { fn as_(self) -> u32 { self.0 as u32 } }
 impl vek::num_traits::AsPrimitive<Sym> for u32 { fn as_(self) -> Sym { Sym(self as u16) } }
+
+// ---- interpretation and spy impls for vek's own traits -------------------------------------------
+impl Term {
+    /// Interpret the term in exact arithmetic under an assignment of the variables.
+    /// Uninterpreted spy nodes: lerp(from,to,f) = from + f(to-from), lerp_precise likewise,
+    /// clamp(v,lo,hi).
+    pub fn eval_x(self, env: &dyn Fn(u32) -> crate::q::X) -> crate::q::X {
+        use crate::q::{qi, unmodelled};
+        match self.node() {
+            Node::Var(i) => env(i),
+            Node::Const(c) => qi(c as i128),
+            Node::Un("neg", a) => -a.eval_x(env),
+            Node::Bin(op, a, b) => { let (a, b) = (a.eval_x(env), b.eval_x(env)); match op { "add" => a + b, "sub" => a - b, "mul" => a * b, "div" => a / b, "rem" => a % b, _ => unmodelled("uninterpreted binary node") } }
+            Node::Tri(op, a, b, c) => { let (a, b, c) = (a.eval_x(env), b.eval_x(env), c.eval_x(env)); match op {
+                "fma" => a * b + c,
+                "lerp" | "lerp_precise" => a + c * (b - a),
+                "clamp" => { if b > c { unmodelled("clamp with inverted bounds") } if a < b { b } else if a > c { c } else { a } }
+                _ => unmodelled("uninterpreted ternary node") } }
+            _ => unmodelled("uninterpreted node"),
+        }
+    }
+    /// all variable indices occurring in the term
+    pub fn vars(self) -> Vec<u32> {
+        fn go(t: Term, out: &mut Vec<u32>) { match t.node() { Node::Var(i) => out.push(i), Node::Const(_) => {}, Node::Un(_, a) => go(a, out), Node::Bin(_, a, b) => { go(a, out); go(b, out) }, Node::Tri(_, a, b, c) => { go(a, out); go(b, out); go(c, out) } } }
+        let mut v = Vec::new(); go(self, &mut v); v.sort(); v.dedup(); v
+    }
+}
+impl vek::ops::Clamp for Term { fn clamped(self, lo: Term, hi: Term) -> Term { Term::tri("clamp", self, lo, hi) } }
+impl vek::ops::Lerp<Term> for Term {
+    type Output = Term;
+    fn lerp_unclamped(from: Term, to: Term, f: Term) -> Term { Term::tri("lerp", from, to, f) }
+    fn lerp_unclamped_precise(from: Term, to: Term, f: Term) -> Term { Term::tri("lerp_precise", from, to, f) }
+}
+impl<'a> vek::ops::Lerp<Term> for &'a Term {
+    type Output = Term;
+    fn lerp_unclamped(from: &Term, to: &Term, f: Term) -> Term { Term::tri("lerp", *from, *to, f) }
+    fn lerp_unclamped_precise(from: &Term, to: &Term, f: Term) -> Term { Term::tri("lerp_precise", *from, *to, f) }
+}
